@@ -634,7 +634,9 @@ def fragViolation (run : Run) (rows : List Row) (frags : List FragRow) : Option 
             let want := (mass + z * Sage.Gen.PROTON) / z
             let calcV := f32val f.mzCalc
             let exp := f32val f.mzExp
-            let slack := ((r.peptideLen + 8 : Nat) : Rat) * absR want / (2 ^ 22 : Nat)
+            -- f32 rounding: the y series is obtained by subtracting cumulative sums from the TOTAL peptide mass,
+            -- so the absolute error of even a light ion scales with the mass of the whole peptide
+            let slack := ((r.peptideLen + 8 : Nat) : Rat) * (absR want + absR (recomputedMass p)) / (2 ^ 22 : Nat)
             let (lo, hi) := tolBounds run.cfg.ftol (want - Sage.Gen.PROTON)
             !(f32finite f.mzCalc && f32finite f.mzExp && absR (calcV - want) ≤ slack
               && lo - slack ≤ exp - Sage.Gen.PROTON && exp - Sage.Gen.PROTON ≤ hi + slack)) with
